@@ -579,7 +579,7 @@ func ruleDecolorize(r *Run) {
 			return false
 		}
 		g, ok := u.X.(*ssa.Global)
-		return ok && g.Name() == "ansiRegex"
+		return ok && globalName(g) == "ansiRegex"
 	}
 	for _, ret := range returnsOf(fn) {
 		for _, lv := range phiLeaves(ret.Results[0]) {
